@@ -455,6 +455,10 @@ mod oracle {
                         }
                     }
                 }
+                "strops" => {
+                    let (hay, pat, to) = (String::from_utf8(unhex(f[1])).unwrap(), String::from_utf8(unhex(f[2])).unwrap(), String::from_utf8(unhex(f[3])).unwrap());
+                    format!("{} {}", hay.contains(pat.as_str()), hex(hay.replace(pat.as_str(), to.as_str()).as_bytes()))
+                }
                 "escape" => {
                     let b = unhex(f[1]);
                     match String::from_utf8(b) {
@@ -591,6 +595,9 @@ fn n_all_types() -> std::vec::Vec<ElementType> {
 }
 
 #[cfg(not(kani))]
+pub fn n_all_types_pub() -> std::vec::Vec<ElementType> { n_all_types() }
+
+#[cfg(not(kani))]
 fn n_cm(i: u8) -> ContentMode {
     match i {
         0 => ContentMode::Sequence,
@@ -718,20 +725,22 @@ pub fn n_c08_element() {
 // The mini schema of the executor mirrors the real one for AUTOSAR > AR-PACKAGES > AR-PACKAGE > SHORT-NAME / CATEGORY / AR-PACKAGES.
 // ---------------------------------------------------------------------------------------------------------
 #[cfg(not(kani))]
-const N_TOKENS: [&[u8]; 11] = [b"<AR-PACKAGES>", b"</AR-PACKAGES>", b"<AR-PACKAGE>", b"</AR-PACKAGE>", b"<SHORT-NAME>", b"</SHORT-NAME>", b"<CATEGORY>", b"</CATEGORY>", b"", b"<!--c-->", b"</AUTOSAR>"];
+const N_TOKENS: [&[u8]; 19] = [b"<AR-PACKAGES>", b"</AR-PACKAGES>", b"<AR-PACKAGE>", b"</AR-PACKAGE>", b"<SHORT-NAME>", b"</SHORT-NAME>", b"<CATEGORY>", b"</CATEGORY>", b"", b"<!--c-->", b"</AUTOSAR>",
+    // mixed-content extension (the reference reader n_ref_doc does not know these: aspects 2, 9 and 18 only)
+    b"<DESC>", b"</DESC>", b"<L-2 L=\"EN\">", b"</L-2>", b"<BR/>", b"<SUP>", b"</SUP>", b"<L-2>"];
 
 /// independent reading of the token sequence: Some(canonical text of the tree) when it is a valid document of the mini schema
 #[cfg(not(kani))]
-fn n_ref_doc(toks: &[u8], texts: &[u8]) -> Option<String> {
+fn n_ref_doc(toks: &[u8], texts: &[u8], comments: &[std::vec::Vec<u8>]) -> Option<String> {
     fn kind_of_start(t: u8) -> Option<usize> { match t { 0 => Some(1), 2 => Some(2), 4 => Some(3), 6 => Some(4), _ => None } }
     fn kind_of_end(t: u8) -> Option<usize> { match t { 1 => Some(1), 3 => Some(2), 5 => Some(3), 7 => Some(4), 10 => Some(0), _ => None } }
     const NAMES: [&str; 5] = ["AUTOSAR", "AR-PACKAGES", "AR-PACKAGE", "SHORT-NAME", "CATEGORY"];
     fn allowed(parent: usize, k: usize) -> bool { matches!((parent, k), (0, 1) | (1, 2) | (2, 3) | (2, 4) | (2, 1)) }
     fn single(parent: usize, k: usize) -> bool { matches!((parent, k), (0, 1) | (2, 3) | (2, 4) | (2, 1)) }
-    struct St<'a> { toks: &'a [u8], texts: &'a [u8], pos: usize, ti: usize }
+    struct St<'a> { toks: &'a [u8], texts: &'a [u8], comments: &'a [std::vec::Vec<u8>], pos: usize, ti: usize, ci: usize }
     fn parse(st: &mut St, kind: usize, out: &mut String) -> Option<()> {
         let mut seen = [false; 5];
-        let mut pending_comment = false;
+        let mut pending_comment: Option<usize> = None;
         loop {
             if st.pos >= st.toks.len() { return None; }
             let t = st.toks[st.pos];
@@ -741,8 +750,8 @@ fn n_ref_doc(toks: &[u8], texts: &[u8]) -> Option<String> {
                 if single(kind, k) { if seen[k] { return None; } seen[k] = true; }
                 out.push('(');
                 out.push_str(NAMES[k]);
-                if pending_comment { out.push_str(" #c"); }
-                pending_comment = false;
+                if let Some(c) = pending_comment { out.push_str(" #"); out.push_str(std::str::from_utf8(&st.comments[c]).ok()?); }
+                pending_comment = None;
                 parse(st, k, out)?;
                 out.push(')');
             } else if let Some(k) = kind_of_end(t) {
@@ -770,11 +779,12 @@ fn n_ref_doc(toks: &[u8], texts: &[u8]) -> Option<String> {
                 out.push_str(std::str::from_utf8(val).ok()?);
                 out.push('"');
             } else {
-                pending_comment = true;
+                pending_comment = Some(st.ci);
+                st.ci += 1;
             }
         }
     }
-    let mut st = St { toks, texts, pos: 0, ti: 0 };
+    let mut st = St { toks, texts, comments, pos: 0, ti: 0, ci: 0 };
     let mut out = String::from("(AUTOSAR");
     parse(&mut st, 0, &mut out)?;
     out.push(')');
@@ -802,6 +812,22 @@ fn n_canon(e: &crate::Element, out: &mut String) {
     out.push(')');
 }
 
+/// like n_canon, with the attributes of every element (round-trip comparison)
+#[cfg(not(kani))]
+fn n_canon_full(e: &crate::Element, out: &mut String) {
+    out.push('(');
+    out.push_str(e.element_name().to_str());
+    for a in e.attributes() { out.push_str(" @"); out.push_str(a.attrname.to_str()); out.push('='); out.push_str(&a.content.to_string()); }
+    if e.comment().is_some() { out.push_str(" #"); out.push_str(&e.comment().unwrap()); }
+    for c in e.content() {
+        match c {
+            crate::ElementContent::Element(sub) => n_canon_full(&sub, out),
+            crate::ElementContent::CharacterData(cd) => { out.push_str(" \""); out.push_str(&cd.to_string()); out.push('"'); }
+        }
+    }
+    out.push(')');
+}
+
 #[cfg(not(kani))]
 pub fn n_parse_element_doc() {
     let ntok = vk::any_usize();
@@ -810,28 +836,38 @@ pub fn n_parse_element_doc() {
     let ntext = toks.iter().filter(|t| **t == 8).count();
     let mut texts = std::vec::Vec::new();
     for _ in 0..ntext { texts.push(vk::any_u8()); }
+    let ncomm = toks.iter().filter(|t| **t == 9).count();
+    let mut comments: std::vec::Vec<std::vec::Vec<u8>> = std::vec::Vec::new();
+    for _ in 0..ncomm {
+        let n = vk::any_u8();
+        assert!(n <= 3, "VK_REPLAY_SHAPE");
+        comments.push((0..n).map(|_| vk::any_u8()).collect());
+    }
     let _fv = vk::any_u32();
     let _mask = vk::any_u32();
     let aspect = vk::any_u8();
     let mut doc: std::vec::Vec<u8> = br#"<?xml version="1.0" encoding="utf-8"?><AUTOSAR xsi:schemaLocation="http://autosar.org/schema/r4.0 AUTOSAR_00050.xsd" xmlns="http://autosar.org/schema/r4.0" xmlns:xsi="http://www.w3.org/2001/XMLSchema-instance">"#.to_vec();
     let mut ti = 0;
+    let mut ci = 0;
     for t in &toks {
         assert!((*t as usize) < N_TOKENS.len(), "VK_REPLAY_SHAPE");
-        if *t == 8 { doc.push(texts[ti]); ti += 1; } else { doc.extend_from_slice(N_TOKENS[*t as usize]); }
+        if *t == 8 { doc.push(texts[ti]); ti += 1; }
+        else if *t == 9 { doc.extend_from_slice(b"<!--"); doc.extend_from_slice(&comments[ci]); doc.extend_from_slice(b"-->"); ci += 1; }
+        else { doc.extend_from_slice(N_TOKENS[*t as usize]); }
     }
     let lines = 1 + doc.iter().filter(|b| **b == b'\n').count();
     let ms = crate::AutosarModel::new();
     let rs = ms.load_buffer(&doc, "s.arxml", true);
     let ml = crate::AutosarModel::new();
     let rl = ml.load_buffer(&doc, "l.arxml", false);
-    let reference = n_ref_doc(&toks, &texts);
+    let reference = if toks.iter().all(|t| *t <= 10) { n_ref_doc(&toks, &texts, &comments) } else { None };
     if aspect == 2 {
         for r in [&rs, &rl] {
             if let Err(AutosarDataError::ParserError { line, .. } | AutosarDataError::LexerError { line, .. }) = r {
                 vk_check!(*line >= 1 && *line <= lines, "error names a line outside the document");
             }
         }
-    } else if aspect == 8 {
+    } else if aspect == 8 || aspect == 18 {
         match (&rs, &rl) {
             (Ok(_), Ok((_, w))) => vk_check!(w.is_empty(), "strict accepts a document that lenient warns about"),
             (Ok(_), Err(_)) => vk_check!(false, "strict accepts a document that lenient rejects"),
@@ -841,8 +877,24 @@ pub fn n_parse_element_doc() {
             }
             (Err(_), Err(_)) => {}
         }
-        if rs.is_ok() {
+        if rs.is_ok() && aspect == 8 {
             vk_check!(reference.is_some(), "strict loading accepts a document that violates the schema");
+        }
+    } else if aspect == 9 {
+        // load -> serialize -> load -> serialize through the public API
+        if let Ok((file, w)) = &rs {
+            if w.is_empty() {
+                let text1 = file.serialize().expect("serialize");
+                let m2 = crate::AutosarModel::new();
+                let r2 = m2.load_buffer(text1.as_bytes(), "s2.arxml", true);
+                vk_check!(r2.is_ok(), "the text written for a loaded document is rejected when loaded again");
+                let (mut c1, mut c2) = (String::new(), String::new());
+                n_canon_full(&ms.root_element(), &mut c1);
+                n_canon_full(&m2.root_element(), &mut c2);
+                vk_check!(c1 == c2, "load -> serialize -> load changes the model");
+                let text2 = r2.unwrap().0.serialize().expect("serialize");
+                vk_check!(text1 == text2, "second serialization differs from the first");
+            }
         }
     } else {
         if let (Ok(_), Some(want)) = (&rs, &reference) {
